@@ -536,7 +536,7 @@ fn raw_fd_of(f: &File) -> RawFd {
     f.as_raw_fd()
 }
 
-// @harness props=C01,C12,C03 tiers=quick:B=8;thorough:B=8|B=12,MEM=16 unwind=B+2 cap=1500 mem=10 covers=4
+// @harness props=C01,C12 props_thorough=C03 tiers=quick:B=8;thorough:B=8|B=12,MEM=16 unwind=B+2 cap=1500 mem=10 covers=4
 // @fn HttpConnection::read_bytes HttpConnection::recv_with_fds
 // @claim F-read: exactly one receive, on buffer[read_cursor..]; chunk stored at [rc, rc+n), [0,rc) untouched, returns rc+n; 0 bytes => ConnectionClosed, stream error => StreamReadError, both leaving the parser state as it was; received descriptors are each wrapped once and appended in arrival order after the ones already held (also on the 0-byte read)
 // @bounds window B; read_cursor arbitrary < B; chunk arbitrary, length 0..=B (truncated to the iovec by the kernel contract); 0..=3 received descriptors with arbitrary numbers 0..10^5 (0 included), 1 descriptor already held
@@ -920,7 +920,7 @@ fn feed_slice(conn: &HttpConnection<Mock>, bytes: &[u8], fds: &[RawFd]) {
     conn.stream.nfds.set(fds.len());
 }
 
-// @harness props=C01,C11,C12,C03 tiers=quick:B=8,M=0|B=8,M=1|B=8,M=2|B=8,M=3|B=8,M=4,MEM=10|B=8,M=5|B=8,M=6,MEM=6|B=8,M=7|B=8,M=8;thorough:B=8,M=0|B=8,M=1|B=8,M=2|B=8,M=3|B=8,M=4,MEM=10|B=8,M=5|B=8,M=6,MEM=6|B=8,M=7|B=8,M=8|B=16,M=0|B=16,M=1|B=16,M=2|B=16,M=6,MEM=14|B=16,M=7 unwind=B+4 cap=2400 mem=2 covers=1 unwindset=dispatch:9,dispatch_old:9
+// @harness props=C01,C11,C12,C03 tiers=quick:B=8,M=0|B=8,M=1|B=8,M=2|B=8,M=3|B=8,M=5|B=8,M=6,MEM=6|B=8,M=7|B=8,M=8;thorough:B=8,M=0|B=8,M=1|B=8,M=2|B=8,M=3|B=8,M=4,MEM=10|B=8,M=5|B=8,M=6,MEM=6|B=8,M=7|B=8,M=8|B=16,M=0|B=16,M=1|B=16,M=2|B=16,M=6,MEM=14|B=16,M=7 unwind=B+4 cap=2400 mem=2 covers=1 unwindset=dispatch:9,dispatch_old:9
 // @fn HttpConnection::try_read HttpConnection::read_and_parse HttpConnection::reset_parser HttpConnection::read_bytes HttpConnection::recv_with_fds HttpConnection::parse_request_line HttpConnection::parse_headers HttpConnection::parse_body HttpConnection::shift_buffer_left
 // @stubs std::string::String::from_utf8_lossy
 // @claim whole try_read on structured reads: (C12) a read that completes a request hands it every descriptor held or received so far, in arrival order, and keeps none; a second request completed by the same read gets none; a read that completes nothing keeps them; (C01) after a completed request the parser continues at the next byte in the same call, a trailing partial line is carried; (C11) whenever try_read returns a ParseError the parser is exactly in the state of a new connection (state, pending request, carried bytes, partial body, counter, held descriptors), requests completed earlier in the same read stay queued; exactly one receive per call
